@@ -500,4 +500,50 @@ bool vp_ranges_vec(std::vector<int>& vec)
   return r;
 }
 
+// C15 / C06 / C05: the text under which a sequenced REQUIRE_DESTRUCTION is registered in its sequence - named (with its own file and
+// line) as the first required expectation when a later step of the sequence is called too early
+void vp_c13_seq_names(bool early, vp_obs& o)
+{
+  trompeloeil::sequence s; vp_M m;
+  auto* obj = new trompeloeil::deathwatched<vp_D>();
+  auto r = NAMED_REQUIRE_DESTRUCTION(*obj).IN_SEQUENCE(s); o.extra = __LINE__;
+  REQUIRE_CALL(m, g()).IN_SEQUENCE(s);
+  o.ret = 0;
+  if (early) { try { m.g(); } catch (...) { o.ret = 1; } }   // the object is still alive: out of sequence, fatal
+  delete obj;
+  m.g();
+  o.x = r->is_satisfied(); o.y = s.is_completed();
+}
+// ... and listed under that text when the sequence object dies while the requirement is still registered in it
+void vp_c13_seq_listing(vp_obs& o)
+{
+  auto* obj = new trompeloeil::deathwatched<vp_D>();
+  {
+    std::unique_ptr<trompeloeil::expectation> r;
+    {
+      trompeloeil::sequence s;
+      r = NAMED_REQUIRE_DESTRUCTION(*obj).IN_SEQUENCE(s); o.extra = __LINE__;
+      o.x = s.is_completed();
+    }                                   // the sequence object dies first: one non-fatal listing
+    o.ret = r->is_satisfied();
+  }                                     // the requirement ends while the object lives: "still alive"
+  delete obj;                           // no requirement is alive any more: unexpected
+  o.y = 0;
+}
+
+// C17: a mock call made from inside a side effect of a traced call - one record per accepted call, each with its own values
+struct vp_MR {
+  MAKE_MOCK1(outer, int(int));
+  MAKE_MOCK1(inner, unsigned(unsigned));
+};
+void vp_c17_nested(int x, unsigned u, vp_obs& o)
+{
+  vp_MR m; unsigned got = 0;
+  ALLOW_CALL(m, inner(trompeloeil::_)).RETURN(_1 + 1);
+  ALLOW_CALL(m, outer(trompeloeil::_)).LR_SIDE_EFFECT(got = m.inner(u)).RETURN(7);
+  vp_tracer t;
+  o.ret = m.outer(x);
+  o.x = (got == u + 1); o.y = 0; o.extra = 0;
+}
+
 } // namespace vp_trompeloeil
